@@ -892,6 +892,12 @@ from ..selftest import Seed, unparse_seed  # noqa: E402
 
 _ET = "src/odfdo/element_typed.py"
 SEEDS = [
+    Seed("UserFieldDecl.set_value keeps the declared type", "fault", "src/odfdo/variable.py",
+         "        self.clear()\n        self.set_value_and_type(value=value)\n        self.set_attribute(\"text:name\", name)",
+         "        old = self.get_attribute_string(\"office:value-type\")\n        self.clear()\n        self.set_value_and_type(value=value, value_type=old)\n        self.set_attribute(\"text:name\", name)", "R06l"),
+    Seed("UserFieldDecl.set_value names the deduced type explicitly", "neutral", "src/odfdo/variable.py",
+         "        self.clear()\n        self.set_value_and_type(value=value)\n        self.set_attribute(\"text:name\", name)",
+         "        self.clear()\n        self.set_value_and_type(value=value, value_type=None)\n        self.set_attribute(\"text:name\", name)"),
     Seed("UserDefined takes the stored value only if it tests true", "fault", "src/odfdo/variable.py",
          "                    value = content.get(\"value\", None)\n", "                    value = content.get(\"value\") or value\n", "R06k"),
     Seed("NamedRange.set_value hands its options over in Row.set_value's order", "fault", "src/odfdo/table.py",
